@@ -854,6 +854,9 @@ func UnmarshalGenericNode(value *yaml.Node) (Type, error) {
 				if err != nil {
 					return nil, err
 				}
+				if typeArg == nil {
+					return nil, parseError(v, "a type argument cannot be null")
+				}
 
 				simpleType.TypeArguments = append(simpleType.TypeArguments, typeArg)
 			} else {
@@ -861,6 +864,9 @@ func UnmarshalGenericNode(value *yaml.Node) (Type, error) {
 					typeArg, err := UnmarshalTypeYAML(c)
 					if err != nil {
 						return nil, err
+					}
+					if typeArg == nil {
+						return nil, parseError(c, "a type argument cannot be null")
 					}
 
 					simpleType.TypeArguments = append(simpleType.TypeArguments, typeArg)
